@@ -56,6 +56,7 @@ def model_circuits():
                                  outputs=["o", "p"], name="bb2", blackboxes={"u0": ff, "u1": ff}), [ff]
     yield "escaped-net-on-blackbox-pins", build({"\\d[0]": ("input", []), "ck": ("input", []), "u0.clk": ("bb_input", ["ck"]), "u0.d": ("bb_input", ["\\d[0]"]), "u0.q": ("bb_output", []), "u0.qn": ("bb_output", []),
                                                   "\\q[0]": ("buf", ["u0.q"]), "o": ("not", ["\\q[0]"])}, outputs=["o", "\\q[0]"], name="escbb", blackboxes={"u0": ff}), [ff]
+    yield "escaped-identifiers-with-a-plain-body", build({"\\en": ("input", []), "en": ("input", []), "\\sum": ("xor", ["\\en", "en"]), "o": ("nand", ["\\sum", "en"])}, outputs=["o", "\\sum"], name="escplain"), []
     yield "escaped-identifiers", build({"\\a[0]": ("input", []), "\\b.x": ("input", []), "\\n$1": ("nand", ["\\a[0]", "\\b.x"]), "o": ("not", ["\\n$1"])}, outputs=["o", "\\n$1"], name="esc"), []
     yield "output-is-input-and-gate-mix", build({"a": ("input", []), "b": ("input", []), "c": ("input", []), "n": ("nor", ["a", "b", "c"]), "x": ("xnor", ["n", "a"]), "y": ("buf", ["x"]), "i": ("not", ["y"])},
                                                 outputs=["a", "i", "n"], name="mix"), []
@@ -301,6 +302,8 @@ def run(chk):
     picks = [x for x in model_circuits() if x[0] in ("reconv", "blackbox", "xnor3", "output-is-input-and-gate-mix")]
     for name, c, bbs in picks:
         for path, wfmt, rfmt, beh in ((f"/mem/{c.name}.v", "verilog", None, False), (f"/mem/{c.name}.v", "verilog", None, True), (f"/mem/{c.name}.txt", "verilog", "verilog", False),
+                                      # the explicit format wins over a known extension (documented: "overrides the extension")
+                                      (f"/mem/{c.name}.bench", "verilog", "verilog", False),
                                       # the file is not named after the module: from_file(path) infers the module and must keep *its* name
                                       (f"/mem/saved_copy_of_it.v", "verilog", None, False), (f"/mem/dir.d/{c.name}_2.v", "verilog", None, True)):
             r = P.call(FILE, "to_file", c, path, wfmt, beh)
